@@ -2219,6 +2219,183 @@ func (p *lfPkg) tempFile() (*lfTemp, error) {
 // driver
 
 // ---------------------------------------------------------------------------------------------
+// counting semaphores built from buffered channels
+
+// chanVarOf resolves a channel expression to the package variable or struct field holding it.
+func (p *lfPkg) chanVarOf(e ast.Expr) *types.Var {
+	switch x := ast.Unparen(e).(type) {
+	case *ast.Ident:
+		if v, ok := p.info.Uses[x].(*types.Var); ok && v.Parent() == p.pkg.Scope() {
+			return v
+		}
+	case *ast.SelectorExpr:
+		if s := p.info.Selections[x]; s != nil && s.Kind() == types.FieldVal {
+			return s.Obj().(*types.Var)
+		}
+	}
+	return nil
+}
+
+// semLeaks: a buffered channel that is a package variable or struct field, on which the package
+// both sends (`sem <- v` as a statement) and receives discarding the value (`<-sem` as a
+// statement), is a counting semaphore: send = acquire a slot, receive = release it.  Every way
+// out of a function after an acquire must release the slot: a deferred release, a release in a
+// block enclosing the return before it, or returning an object of this package whose Close
+// method releases (the slot travels with the object).  Anything else is a leak: after `cap`
+// leaks every further acquire blocks forever.
+func (p *lfPkg) semLeaks() {
+	type ev struct {
+		u   *lfUnit
+		pos token.Pos
+		n   ast.Node
+	}
+	sends, recvs := map[*types.Var][]ev{}, map[*types.Var][]ev{}
+	for _, f := range p.files {
+		ast.Inspect(f, func(n ast.Node) bool {
+			switch x := n.(type) {
+			case *ast.SendStmt:
+				if v := p.chanVarOf(x.Chan); v != nil {
+					sends[v] = append(sends[v], ev{p.unitAt(x), x.Pos(), x})
+				}
+			case *ast.ExprStmt:
+				if ue, ok := ast.Unparen(x.X).(*ast.UnaryExpr); ok && ue.Op == token.ARROW {
+					if v := p.chanVarOf(ue.X); v != nil {
+						recvs[v] = append(recvs[v], ev{p.unitAt(x), x.Pos(), x})
+					}
+				}
+			}
+			return true
+		})
+	}
+	for sem, acqs := range sends {
+		if len(recvs[sem]) == 0 {
+			continue // a plain producer/consumer channel
+		}
+		if ch, ok := sem.Type().Underlying().(*types.Chan); !ok || ch.Dir() != types.SendRecv {
+			continue
+		}
+		// types of this package whose Close releases the semaphore
+		closers := map[*types.TypeName]bool{}
+		for _, r := range recvs[sem] {
+			for w := r.u; w != nil; w = w.outer {
+				if w.decl != nil && w.decl.Recv != nil && w.decl.Name.Name == "Close" {
+					t := w.fn.Type().(*types.Signature).Recv().Type()
+					if pt, ok := t.(*types.Pointer); ok {
+						t = pt.Elem()
+					}
+					if nt, ok := t.(*types.Named); ok {
+						closers[nt.Obj()] = true
+					}
+				}
+			}
+		}
+		releasedBefore := func(u *lfUnit, acq token.Pos, at ast.Node) bool {
+			for _, r := range recvs[sem] {
+				if r.pos <= acq || r.pos >= at.Pos() {
+					continue
+				}
+				// deferred release:  defer func() { <-sem }()   directly in u's body
+				for w := r.u; w != nil && w != u; w = w.outer {
+					if w.lit != nil && w.outer == u {
+						if c, ok := p.parent[w.lit].(*ast.CallExpr); ok {
+							if _, isDefer := p.parent[c].(*ast.DeferStmt); isDefer {
+								return true
+							}
+						}
+					}
+				}
+				if r.u != u {
+					continue
+				}
+				// a release in a block that encloses `at`
+				blk := p.parent[r.n]
+				for x := p.parent[at]; x != nil; x = p.parent[x] {
+					if x == blk {
+						return true
+					}
+				}
+			}
+			return false
+		}
+		for _, a := range acqs {
+			u := a.u
+			if u == nil {
+				continue
+			}
+			var exits []ast.Node
+			ast.Inspect(u.body, func(n ast.Node) bool {
+				switch x := n.(type) {
+				case *ast.FuncLit:
+					return false
+				case *ast.ReturnStmt:
+					if x.Pos() > a.pos {
+						exits = append(exits, x)
+					}
+				}
+				return true
+			})
+			results := 0
+			if u.decl != nil {
+				results = u.fn.Type().(*types.Signature).Results().Len()
+			} else if sig, ok := p.info.TypeOf(u.lit).(*types.Signature); ok {
+				results = sig.Results().Len()
+			}
+			if results == 0 && len(u.body.List) > 0 {
+				exits = append(exits, &ast.EmptyStmt{Semicolon: u.body.End() - 1}) // falling off the end
+			}
+			for _, ex := range exits {
+				if ex.Pos() < u.body.End()-1 || results > 0 {
+					if _, isRet := ex.(*ast.ReturnStmt); !isRet {
+						continue
+					}
+				}
+				if rs, ok := ex.(*ast.ReturnStmt); ok {
+					if releasedBefore(u, a.pos, rs) {
+						continue
+					}
+					// the slot travels with a returned object whose Close releases it
+					handed := false
+					for _, res := range rs.Results {
+						t := p.info.TypeOf(res)
+						if pt, ok := t.(*types.Pointer); ok {
+							t = pt.Elem()
+						}
+						if nt, ok := t.(*types.Named); ok && closers[nt.Obj()] {
+							handed = true
+						}
+					}
+					if handed {
+						p.loose = append(p.loose, lfLoose{u, sem, rs.Pos(), "handover", "slot of " + lfGuardName(p, sem) + " returned inside an object whose Close releases it"})
+						continue
+					}
+					p.loose = append(p.loose, lfLoose{u, sem, rs.Pos(), "leak", "return with a slot of semaphore " + lfGuardName(p, sem) + " still held: " + strings.SplitN(p.src(rs), "\n", 2)[0]})
+				} else {
+					// end of a function without results: released at top level after the acquire?
+					ok := false
+					for _, r := range recvs[sem] {
+						if r.u == u && r.pos > a.pos && p.parent[r.n] == ast.Node(u.body) {
+							ok = true
+						}
+						for w := r.u; w != nil && w != u; w = w.outer {
+							if w.lit != nil && w.outer == u && r.pos > a.pos {
+								if c, isCall := p.parent[w.lit].(*ast.CallExpr); isCall {
+									if _, isDefer := p.parent[c].(*ast.DeferStmt); isDefer {
+										ok = true
+									}
+								}
+							}
+						}
+					}
+					if !ok {
+						p.loose = append(p.loose, lfLoose{u, sem, a.pos, "leak", "function ends with a slot of semaphore " + lfGuardName(p, sem) + " still held"})
+					}
+				}
+			}
+		}
+	}
+}
+
+// ---------------------------------------------------------------------------------------------
 // generic facts: barriers of any guard, split read-modify-write, renames, writes to globals
 
 // anyBarrier: which units run only under SOME mutex of the package / only inside SOME once body.
@@ -2560,6 +2737,7 @@ func genLockFacts(e *Env) (string, error) {
 		p.scanGuards()
 		p.buildCalls()
 		p.deriveOnce()
+		p.semLeaks()
 		fr := p.freshParams()
 		for _, u := range p.units {
 			for _, r := range u.regions {
